@@ -31,12 +31,17 @@ AML = 'block "IF_DATA" taggedunion if_data {\n  "X" struct { uint; };\n};\n'
 
 
 def relpath(f):
-    parts = {"same": [], "sub": ["sub1"], "subsub": ["sub1", "sub2"]}[f["place"]]
+    parts = {"same": [], "sub": ["sub1"], "subsub": ["sub1", "sub2"], "digitdir": ["2024_units"]}[f["place"]]
     return parts + [f["name"]]
+
+
+ABS_DIR = [None]
 
 
 def directive(f):
     p = f["sep"].join(relpath(f))
+    if ABS_DIR[0] is not None:
+        p = os.path.join(ABS_DIR[0], *relpath(f))
     return f'/include "{p}"' if f["quoted"] else f"/include {p}"
 
 
@@ -90,8 +95,10 @@ def prepare(cases, root):
         files = []
         if c["fam"] == "shape":
             COMMENTS_IN_INCLUDES[0] = bool(c.get("cmt"))
+            ABS_DIR[0] = src if c.get("abs") else None
             text = materialise(c["f"], src, True, files)
             COMMENTS_IN_INCLUDES[0] = False
+            ABS_DIR[0] = None
             flat = flat_text(c["flat"])
             if c.get("enc", "utf8") != "utf8":
                 codec, bom = {"utf8bom": ("utf-8", b"\xef\xbb\xbf"), "utf16le_bom": ("utf-16-le", b"\xff\xfe"), "utf16be_bom": ("utf-16-be", b"\xfe\xff"),
@@ -321,6 +328,7 @@ def run(tier, selftest):
     vlib.write_evidence(PID, tier, "model_checking", cov, [
         "unreadable include is realised as 'path is a directory' (the sandbox runs as root, permission bits do not deny reads)",
         "an include file without elements leaves no trace in the model; its directive is not required in the written file",
+        "an unquoted name that begins with a digit or a slash is not read as a file name by the tokenizer: directories that begin with a digit and absolute paths are generated in quoted names only",
         "for an /include inside the A2ML block the model is compared after merge_includes() (the raw A2ML text necessarily differs: directive vs. included text)",
     ], time.time() - t0, rep.count_new)
     return rep.exit_code()
